@@ -11,7 +11,8 @@
                     (no model involved): every acknowledged write is there (C01);
      known_class  : 1 catalog file mid-rewrite (kill), 2 dirty pages not yet in the log (kill),
                     3 pages written behind the dirty tracker (power), 4 Database::checkpoint()
-                    truncated the log without syncing the tables (power).
+                    truncated the log without syncing the tables (power), 5 frames of a table whose id
+                    collides with a system table's were replayed into the wrong file.
    Evaluated by vm_compute; definitions only. *)
 From Coq Require Import ZArith List Bool.
 From TV Require Export Model.Crash.
@@ -34,20 +35,21 @@ Inductive cobs :=
        (open : Z)                     (* 0 ok, 1 error, 2 panic *)
        (tables : list ctab)
        (probe_ok : bool)              (* SELECT .. WHERE id = k agrees with the scan for every key *)
-       (pages : list z3).             (* recovered data files: (file, page, image), zero pages omitted, -1 = unknown image *)
+       (pages : list z3)              (* recovered data files: (file, page, image), zero pages omitted, -1 = unknown image *)
+       (div : bool).                  (* this image lists turdb_catalog/ after root/: colliding table ids are shadowed *)
 
 (* what one reopened crash image looked like; many crash points share an image *)
-Inductive cimg := CImg (open : Z) (tables : list ctab) (probe_ok : bool) (pages : list z3).
+Inductive cimg := CImg (open : Z) (tables : list ctab) (probe_ok : bool) (pages : list z3) (div : bool).
 Inductive cpoint := CP (i j : Z) (power : bool) (img : Z).
 
-Inductive case := Case (steps : list cstep) (imgs : list cimg) (points : list cpoint).
+Inductive case := Case (steps : list cstep) (shadow : list Z) (imgs : list cimg) (points : list cpoint).
 
 Definition obs_of (imgs : list cimg) (p : cpoint) : cobs :=
   match p with
   | CP i j pw k =>
       match nth_error imgs (Z.to_nat k) with
-      | Some (CImg o t pr pg) => CObs i j pw o t pr pg
-      | None => CObs i j pw 3 [] false []
+      | Some (CImg o t pr pg d) => CObs i j pw o t pr pg d
+      | None => CObs i j pw 3 [] false [] false
       end
   end.
 
@@ -128,7 +130,7 @@ Definition pages_agree (dom : list key) (m : pmap) (pages : list (Z * Z * Z)) : 
 
 Definition image_agrees (dom : list key) (im : image) (o : cobs) : bool :=
   match o with
-  | CObs _ _ _ open tables0 _ pages0 =>
+  | CObs _ _ _ open tables0 _ pages0 _ =>
       let tables := map of_ctab tables0 in
       let pages := map of_z3 pages0 in
       if r_open im
@@ -138,12 +140,13 @@ Definition image_agrees (dom : list key) (im : image) (o : cobs) : bool :=
       else negb (open =? 0)
   end.
 
-Definition obs_mode (o : cobs) : mode := match o with CObs _ _ p _ _ _ _ => if p then Power else Kill end.
-Definition obs_pos (o : cobs) : Z * Z := match o with CObs i j _ _ _ _ _ => (i, j) end.
+Definition obs_mode (o : cobs) : mode := match o with CObs _ _ p _ _ _ _ _ => if p then Power else Kill end.
+Definition obs_div (o : cobs) : bool := match o with CObs _ _ _ _ _ _ _ d => d end.
+Definition obs_pos (o : cobs) : Z * Z := match o with CObs i j _ _ _ _ _ _ => (i, j) end.
 
-Definition obs_model_agrees (sts : list st) (os : list op) (dom : list key) (o : cobs) : bool :=
+Definition obs_model_agrees (sh : list Z) (sts : list st) (os : list op) (dom : list key) (o : cobs) : bool :=
   match state_at sts os (fst (obs_pos o)) (snd (obs_pos o)) with
-  | Some s => image_agrees dom (recover (obs_mode o) s) o
+  | Some s => image_agrees dom (recover_sh (if obs_div o then sh else []) (obs_mode o) s) o
   | None => false
   end.
 
@@ -215,7 +218,7 @@ Definition keys_of (a b : rows) : list Z := map fst a ++ map fst b.
    statement names has exactly its acknowledged value (present with that value, or absent) *)
 Definition c01_ok (lops : list lop) (o : cobs) : bool :=
   match o with
-  | CObs i j _ open tables0 _ _ =>
+  | CObs i j _ open tables0 _ _ _ =>
       let tables := map of_ctab tables0 in
       let '(a, infl) := split_at lops (Z.to_nat i) (j <? 0) in
       let acked := lrun [] (firstn a lops) in
@@ -232,12 +235,16 @@ Definition c01_ok (lops : list lop) (o : cobs) : bool :=
   end.
 
 (* ------------------------------------------------------------------ known classes (evaluated on the model state) *)
-Definition class_at (sts : list st) (os : list op) (o : cobs) : Z :=
+Definition diverted (sh : list Z) (fr : list frame) : bool := existsb (fun f => mem (fst (fst f)) sh) fr.
+
+Definition class_at (sh : list Z) (sts : list st) (os : list op) (o : cobs) : Z :=
   match o with
-  | CObs i j power _ _ _ _ =>
+  | CObs i j power _ _ _ _ dv =>
       match state_at sts os i j, nth_error sts (Z.to_nat i), nth_error os (Z.to_nat i) with
       | Some s, Some s0, Some op_i =>
-          if power then
+          if negb power && negb (cat_ok s) then 1
+          else if dv && diverted sh (if power then closed_du s ++ cur_du s else closed_fl s ++ cur_fl s) then 5
+          else if power then
             if existsb is_api_ckpt (firstn (S (Z.to_nat i)) os) then 4
             else match g_unl (ghost_evs s0 (ghost_run init ghost0 (firstn (Z.to_nat i) os)) (pos_events s0 op_i j)) with
                  | [] => 0 | _ => 3 end
@@ -251,22 +258,22 @@ Definition class_at (sts : list st) (os : list op) (o : cobs) : Z :=
 (* ------------------------------------------------------------------ the three judgements *)
 Definition model_agrees (c : case) : bool :=
   match c with
-  | Case steps0 imgs pts =>
+  | Case steps0 sh imgs pts =>
       let obs := map (obs_of imgs) pts in
       let steps := map of_cstep steps0 in
       let os := ops_of steps in
       let sts := states_from init os in
       let dom := domain os in
-      conform init steps && wf_run init os && forallb (obs_model_agrees sts os dom) obs
+      conform init steps && wf_run init os && forallb (obs_model_agrees sh sts os dom) obs
   end.
 
 Definition spec_ok (c : case) : bool :=
-  match c with Case steps imgs pts => forallb (c01_ok (lops_of (map of_cstep steps))) (map (obs_of imgs) pts) end.
+  match c with Case steps _ imgs pts => forallb (c01_ok (lops_of (map of_cstep steps))) (map (obs_of imgs) pts) end.
 
 (* one entry per distinct (model_agrees, spec_ok, class) among the crash points that fail *)
 Definition judge (spec : list lop -> cobs -> bool) (c : case) : list (bool * bool * Z) :=
   match c with
-  | Case steps0 imgs pts =>
+  | Case steps0 sh imgs pts =>
       let obs := map (obs_of imgs) pts in
       let steps := map of_cstep steps0 in
       let os := ops_of steps in
@@ -274,7 +281,7 @@ Definition judge (spec : list lop -> cobs -> bool) (c : case) : list (bool * boo
       let dom := domain os in
       let lops := lops_of steps in
       let global := conform init steps && wf_run init os in
-      let per := map (fun o => (global && obs_model_agrees sts os dom o, spec lops o, class_at sts os o)) obs in
+      let per := map (fun o => (global && obs_model_agrees sh sts os dom o, spec lops o, class_at sh sts os o)) obs in
       let bad := filter (fun x => negb (fst (fst x) && snd (fst x))) per in
       let bad := if global then bad else (false, true, 0) :: bad in
       fold_right (fun x acc =>
